@@ -7,10 +7,14 @@ from .runtime_common import RUNTIME, RUNTIME_ASSUMPTIONS
 def run(tier):
     pr = PropertyRun('C04', tier)
     run_contracts_sel(pr, RUNTIME, tier, 'C04')
+    # the call path through systemPartial: the returned function is run symbolically in the post-state
+    from contracts.lib_cmp import SYSTEM_PARTIAL
+    run_contracts_sel(pr, [SYSTEM_PARTIAL], tier, 'C04')
     # the include arm of the statement loop is not proved: bounded native stand-in (includes run in the global scope, in order)
     from .C17 import include_bounded
     include_bounded(pr, 'C04')
     pr.assumptions += RUNTIME_ASSUMPTIONS + [
+        'systemPartial: one symbolic call of the returned function stands for every call (the captured argument list never escapes, so it is the same at every call: ownership of unescaped temporaries); the target is an arbitrary host function',
         'SCRIPT_FUNCTIONS / EXPRESSION_FUNCTIONS are treated as uninterpreted maps name -> function (their contents are checked by the C03 table lemma)',
     ]
     return pr
